@@ -57,9 +57,12 @@ def run(rep: Report) -> None:
             if rk:
                 ok, detail, where = False, f"NumPy engine: {rk[0][2]}", rk[0][1]
                 break
-            q = next((x for x in other.paths if x.path == p.path), None)
+            # the CasADi path whose decisions are implied by this NumPy path's decisions
+            pa = {(repr(a[0]), a[1]) for a in p.assumptions}
+            cands = [x for x in other.paths if {(repr(a[0]), a[1]) for a in x.assumptions} <= pa]
+            q = max(cands, key=lambda x: len(x.assumptions)) if cands else None
             if q is None:
-                ok, detail = False, f"the NumPy run takes a python-level branch {p.path} the CasADi run does not have"
+                ok, detail = False, f"the NumPy run takes python-level branches {p.path} incompatible with the CasADi run"
                 break
             if p.raised or q.raised:
                 if (p.raised is None) != (q.raised is None):
@@ -69,6 +72,8 @@ def run(rep: Report) -> None:
                 continue
             nz = M.make_normalizer(cfg, with_domain=False)
             env = E.Env(p.n1)
+            mapping, _ = M.assumption_substitution(p.assumptions, nz)
+            M.apply_assumptions(nz, p.assumptions, env, mapping)
             for role, vs in q.outputs.items():
                 for var, t in vs.items():
                     got = p.outputs.get(role, {}).get(var)
@@ -76,7 +81,7 @@ def run(rep: Report) -> None:
                         ok, detail = False, f"no next {var} of {role} under the NumPy engine"
                         continue
                     try:
-                        mm = M.compare(got, t, env, nz)
+                        mm = M.compare(got, t, env, nz, mapping)
                     except E.ShapeError as ex:
                         mm = [("shape", str(ex), "")]
                     if mm:
